@@ -9,6 +9,7 @@ bad=0
 for d in /verif/seeded/*/; do
   id=$(basename $d)
   echo $id | grep -qE "$pat" || continue
+  [ -f "$d/meta.json" ] || continue
   prop=$(python3 -c "import json;print(json.load(open('$d/meta.json'))['property'])")
   want=$(python3 -c "import json;print(json.load(open('$d/meta.json')).get('status',''))")
   res=$(SEED_WT=/tmp/wt/regress /verif/seed_eval.sh $d $prop 2>&1 | grep -E "^check .* exit" | sed 's/.*exit //')
